@@ -61,6 +61,25 @@ def make(rng, tier):
             rmode = rng.choice(["none", "none", "int-big", "int-binding", "list"])
             rmax = None if rmode == "none" else 64 if rmode == "int-big" else rng.choice([1, 2]) if rmode == "int-binding" else [1] + [rng.randint(1, 5) for _ in range(d - 1)] + [1]
             out.append(("%s/d%d/%s/%s/rmax-%s" % (kind, d, "ttm" if ttm else "tt", dtname, rmode), x, eps, rmax))
+    # scale family: the statement is invariant under x -> c*x; tensors whose overall norm is far below / above 1 (down to below machine
+    # epsilon, up to 2^80) with genuine rank > 1 must keep their ranks and relative accuracy
+    for d in ([2, 3, 4] if tier == "quick" else [2, 3, 4, 5]):
+        for dtname in ["f64", "c128", "f32"]:
+            for sgn in (-1, 1):
+                dt = DTYPES[dtname]
+                ttm = (d == 3 and sgn == 1)
+                N = rand_modes(rng, d, 2, 4, distinct=False)
+                M = rand_modes(rng, d, 1, 3, distinct=False) if ttm else None
+                g = tn.Generator().manual_seed(rng.randrange(1 << 30))
+                base = rand_tt(rng, N, [1] + [2] * (d - 1) + [1], dt, M=M)
+                cs = [tn.randn(c.shape, generator=g, dtype=tn.float64).to(dt) for c in (base + base).cores]
+                e = (80 if dtname != "f32" else 40) * sgn
+                per = e // d
+                cs = [c * (2.0 ** per) for c in cs]
+                cs[0] = cs[0] * (2.0 ** (e - per * d))
+                x = torchtt.TT(cs)
+                eps = rng.choice([1e-12, 1e-8, 1e-4]) if dtname != "f32" else rng.choice([1e-5, 1e-3])
+                out.append(("%s/d%d/%s/%s/rmax-none" % ("tiny" if sgn < 0 else "huge", d, "ttm" if ttm else "tt", dtname), x, eps, None))
     return out
 
 
